@@ -262,6 +262,14 @@ def run(ctx):
     for name, case in load_corpus(ID):
         ctx.guarded(check_case, case)
         ctx.count('corpus')
+    if ctx.shard == 0:
+        # size dimension: a part whose header block is larger than any plausible fixed limit (12 KiB), cut everywhere
+        big = {'boundary': 'bnd', 'preamble': b'', 'epilogue': b'\r\n',
+               'parts': [{'name': 'a', 'value': b'one'},
+                         {'name': 'f', 'filename': 'x.bin', 'value': b'file\r\n--bn data', 'extra_headers': [('X-Pad-%d' % i, 'p' * 600) for i in range(20)]},
+                         {'name': 'z', 'value': b'last'}]}
+        ctx.guarded(check_case, big)
+        ctx.count('large_header_block_body')
     n = 220 if ctx.tier == 'quick' else 400
     ctx.hyp(body_case(), check_case, n)
     if ctx.tier == 'thorough' and ctx.shard < 4:
